@@ -94,6 +94,8 @@ pub fn record(args: &Args) {
     let mut lons: Vec<i64> = (-1_800_000..=1_800_000).step_by(step_lon as usize).collect();
     lons.extend([-1_799_900, 1_799_900, 0]);
 
+    let mut zone_changes: std::collections::HashMap<String, Vec<(NaiveDateTime, i64)>> = std::collections::HashMap::new();
+
     for &lat in &lats {
         for &lon in &lons {
             let mut dates: Vec<NaiveDate> = vec![
@@ -105,6 +107,16 @@ pub fn record(args: &Args) {
             }
             while (dates.len() as u64) < ndates {
                 dates.push(date_of_daynum(rng.range(-25_567, 47_846))); // 1900 .. 2100
+            }
+            // the days around the zone's two latest clock changes: an event near local midnight belongs to another UTC day,
+            // where the zone's offset may differ
+            if let Ok(tz) = guarded(|| *TzLocation::from_coords(Coordinates::new(lat as f64 / 10_000.0, lon as f64 / 10_000.0).unwrap()).get_timezone()) {
+                let trs = zone_changes.entry(tz.name().to_string()).or_insert_with(|| crate::t_tz::transitions(tz));
+                for (at, _) in trs.iter().rev().take(2) {
+                    dates.push(at.date());
+                    dates.push(at.date().pred_opt().unwrap());
+                    dates.push(at.date().succ_opt().unwrap());
+                }
             }
 
             for date in dates {
